@@ -1,6 +1,7 @@
 import Exetera.Props.C17
 import Exetera.Lemmas.GenKernelsJournal
 import Exetera.Lemmas.GenKernelsJournalMerge
+import Exetera.Lemmas.GenKernelsJournalIndexed
 /-!
   C17 over the TRANSLATED journalling kernels (`Gen/Kernels.lean`, regenerated from operations.py by tools/translate_njit.py on
   every run).
@@ -60,6 +61,42 @@ theorem gen_compare_rows_to_keep (ok nk o n : List Int) (ho : o.length = ok.leng
 
 example : compare_rows_for_journalling.run (indices [4, 4, 6] [4, 8]).1 (indices [4, 4, 6] [4, 8]).2 [7, 7, 9] [7, 5]
     [false, false, false] = .ok [false, false, true] := by rfl
+
+/-! ## compare_indexed_rows_for_journalling (three `assert`s, `indices[-1]`, slices compared with `np.array_equal`) -/
+
+/-- transfer: every `.ok` run of the model `compareIndexedRows` (its assertions passed) is a run of the translated kernel with the
+    same `to_keep`; no map entry below -1 (the model wraps a negative row number, the translation rejects it) -/
+theorem gen_compare_indexed_rows_ok (om nm : List Int) (oi : List Nat) (ov : List Int) (ni : List Nat) (nv : List Int)
+    (tk tk' : List Bool) (hom : ∀ x ∈ om, -1 ≤ x) (hnm : ∀ x ∈ nm, -1 ≤ x)
+    (h : compareIndexedRows om nm oi ov ni nv tk = .ok tk') :
+    compare_indexed_rows_for_journalling.run om nm (ints oi) ov (ints ni) nv tk = .ok tk' :=
+  compare_indexed_rows_ok om nm oi ov ni nv tk tk' hom hnm h
+
+example : compareIndexedRows [1, 2, -1] [0, -1, 1] [0, 1, 2, 2] [1, 2] [0, 1, 2] [3, 4] [false, false, false]
+    = .ok [true, false, true] := by rfl
+example : compare_indexed_rows_for_journalling.run [1, 2, -1] [0, -1, 1] [0, 1, 2, 2] [1, 2] [0, 1, 2] [3, 4] [false, false, false]
+    = .ok [true, false, true] := by rfl
+-- a failed assertion (`old_indices[-1] != len(old_values)`)
+example : compare_indexed_rows_for_journalling.run [0] [0] [0, 1] [] [0, 0] [] [false] = .error (.other "AssertionError") := by rfl
+
+/-- one indexed string field compared by the TRANSLATED kernel on the specified maps, starting from an all-False `to_keep`: the
+    assertions pass, no subscript is out of range or negative, and `to_keep` is, slot by slot, the specified flag -/
+theorem gen_compare_indexed_rows_to_keep (ok nk : List Int) (o n : List (List Int)) (ho : o.length = ok.length)
+    (hn : n.length = nk.length) :
+    compare_indexed_rows_for_journalling.run (indices ok nk).1 (indices ok nk).2 (ints (encode o).1) (encode o).2
+      (ints (encode n).1) (encode n).2 (List.replicate (indices ok nk).1.length false)
+      = .ok (toKeep ok nk (differsAny [Col.str o n])) := by
+  have h := C17.to_keep_iff_new_or_differs ok nk [Col.str o n] (by simp)
+    (by intro c hc; simp only [List.mem_singleton] at hc; subst hc; exact ⟨ho, hn⟩)
+  simp only [List.map_cons, List.map_nil, Col.enc, compareCols, compareCol] at h
+  cases hr : compareIndexedRows (indices ok nk).1 (indices ok nk).2 (encode o).1 (encode o).2 (encode n).1 (encode n).2
+      (List.replicate (indices ok nk).1.length false) with
+  | error e => rw [hr] at h; simp at h
+  | ok tk' =>
+    rw [hr] at h
+    simp only [Except.ok.injEq] at h
+    subst h
+    exact compare_indexed_rows_ok _ _ _ _ _ _ _ _ (indices_fst_ge ok nk) (indices_snd_ge ok nk) hr
 
 /-! ## merge_journalled_entries / merge_indexed_journalled_entries_count
 
